@@ -198,6 +198,41 @@ def task_surface(job) -> dict:
     return res
 
 
+# ------------------------------------------------------------------------------------------------ models
+def task_models(job) -> dict:
+    pkg = job["package"]
+    out: dict = {"classes": {}, "errors": []}
+    try:
+        mp = importlib.import_module(pkg + ".models")
+    except BaseException as e:
+        out["errors"].append(err(e))
+        return out
+    for info in pkgutil.iter_modules(mp.__path__):
+        try:
+            m = importlib.import_module(f"{pkg}.models.{info.name}")
+        except BaseException as e:
+            out["errors"].append({"module": info.name, **err(e)})
+            continue
+        for n, c in vars(m).items():
+            if inspect.isclass(c) and c.__module__ == m.__name__:
+                if dataclasses.is_dataclass(c):
+                    meta = getattr(c, "Meta", None)
+                    load = dict(getattr(meta, "key_transform_with_load", {}) or {})
+                    inv = {v: k for k, v in load.items()}
+                    fields = []
+                    for f in dataclasses.fields(c):
+                        required = f.default is dataclasses.MISSING and f.default_factory is dataclasses.MISSING
+                        fields.append({"name": f.name, "wire": inv.get(f.name, f.name), "type": f.type if isinstance(f.type, str) else repr(f.type), "required": required})
+                    out["classes"][n] = {"kind": "dataclass", "module": info.name, "fields": fields}
+                elif issubclass(c, enum.Enum):
+                    out["classes"][n] = {"kind": "enum", "module": info.name, "members": [[mm.name, mm.value] for mm in c]}
+                else:
+                    out["classes"][n] = {"kind": "class", "module": info.name}
+            elif not n.startswith("_") and not inspect.ismodule(c) and getattr(c, "__module__", None) in (None, "typing", "types") and n[:1].isupper() and n not in ("Any", "List", "Dict", "Union", "Optional", "TypeAlias", "Annotated", "Literal"):
+                out["classes"][n] = {"kind": "alias", "module": info.name, "repr": repr(c)[:200]}
+    return out
+
+
 # ------------------------------------------------------------------------------------------------ calls
 def decode_arg(job, a):
     if not isinstance(a, dict) or "k" not in a:
@@ -362,6 +397,8 @@ def main():
                 out[name] = task_import_all(job)
             elif name == "surface":
                 out[name] = task_surface(job)
+            elif name == "models":
+                out[name] = task_models(job)
             elif name == "calls":
                 out[name] = task_calls(job, t["calls"])
             else:
